@@ -81,6 +81,8 @@ pub enum G {
     Pratt(PForm, Box<G>, Vec<POp>),
     // version 3: token trees
     NestedIn(Box<G>),
+    /// `(ExtWrap a)`: `Ext(W(a))` with `ExtParser::parse = inp.parse(&a)` and `ExtParser::check = inp.check(&a)`
+    ExtWrap(Box<G>),
 }
 
 #[derive(Clone, Copy, Debug, PartialEq)]
@@ -688,6 +690,7 @@ pub fn parse_g(tk: Tk, s: &Sexp) -> R<G> {
             G::Pratt(form, bg(atom)?, ops)
         }
         ("NestedIn", [a]) => G::NestedIn(bg(a)?),
+        ("ExtWrap", [a]) => G::ExtWrap(bg(a)?),
         _ => return None,
     })
 }
@@ -744,7 +747,8 @@ impl G {
             | G::Rec(a)
             | G::RecDecl(a)
             | G::Boxed(a)
-            | G::NestedIn(a) => a.has_fnew(),
+            | G::NestedIn(a)
+            | G::ExtWrap(a) => a.has_fnew(),
             G::Then(a, b)
             | G::IgnoreThen(a, b)
             | G::ThenIgnore(a, b)
